@@ -145,13 +145,20 @@ def check_mainimpls(invocations):
     mreq, idx = [], []
     for i, r in enumerate(resp):
         if r.startswith('(Trait') or r.startswith('(NoTrait'):
-            t, b, g, e = r.split('\t')
-            mreq.append('mainimpl\t%s\t%s' % (t, b)); idx.append(i)
+            t, b, g, e, h = r.split('\t')
+            mreq.append('mainimpl\t%s\t%s' % (t, b)); idx.append((i, 'main'))
+            mreq.append('helpertraits\t%s\t%s' % (t, b)); idx.append((i, 'helper'))
     mresp = cm.run_model(mreq, exe_model) if mreq else []
     out = []
-    for i, m in zip(idx, mresp):
-        e = resp[i].split('\t')[3]
-        if _norm_main(m) != _norm_main(e):
-            out.append(dict(kind='correspondence', request=invocations[i], impl=e[:4000], model=m[:4000],
-                            oracle='corr:hook/mainimpl: the main impl the macro generates and the Coq model (GenMain.gen_main_impl) disagree'))
-    return len(idx), out
+    for (i, what), m in zip(idx, mresp):
+        if what == 'main':
+            e = resp[i].split('\t')[3]
+            if _norm_main(m) != _norm_main(e):
+                out.append(dict(kind='correspondence', request=invocations[i], impl=e[:4000], model=m[:4000],
+                                oracle='corr:hook/mainimpl: the main impl the macro generates and the Coq model (GenMain.gen_main_impl) disagree'))
+        else:
+            h = resp[i].split('\t')[4]
+            if m != h:
+                out.append(dict(kind='correspondence', request=invocations[i], impl=h[:4000], model=m[:4000],
+                                oracle='corr:hook/helpertrait: the helper trait the macro generates (name, parameters, where-clause) and the Coq model (GenMain.gen_helper_trait) disagree'))
+    return len(idx) // 2, out
